@@ -10,7 +10,7 @@ gossip: the union of all instances' deliveries contains no unjustified notificat
 import json, os, re, collections
 from lib import vlib
 from lib.vlib import log
-from checks import e2ecommon, peercommon
+from checks import e2ecommon, peercommon, appcommon
 
 PID = "C08"
 OWN = {"C01": "owed notification neither delivered by this instance nor known from a peer",
@@ -81,6 +81,9 @@ def run(tier, v):
     # its timeout and the instance becomes ready, so the settle stage of its flushes passes)
     peer_mc = peercommon.model_check(PID, tier, ["MC_GossipPeers_ready.cfg", "MC_GossipPeers_stuck.cfg"])
     peers = peercommon.run_real_peers(PID, tier, v)
+    # the whole program: complete app.App instances clustered over loopback (the wiring of app.setup(): flush
+    # timeout rule, cluster wait by position, settle / ready, gossip of the notification log), spec/AppSys.tla
+    appsys = appcommon.run_app_system(PID, tier, v)
     sample = []
     for l in lines[:600]:
         e = json.loads(l)
@@ -93,16 +96,18 @@ def run(tier, v):
         "rule": "one case = one cluster scenario (2-3 real instances, heartbeats every minute, fire/resolve events, and - in the non-trivial ones - "
                 "gossip loss 20-60%, delays up to 40 s, partitions, crashes and restarts with or without snapshot)",
         "samples": sample,
-        "real_peers": peers, "real_peers_mc": peer_mc,
+        "real_peers": peers, "real_peers_mc": peer_mc, "app_system": appsys,
         "bounds": "Cluster.tla MC: 3 instances fault-free; 2 instances with loss, delay 0..3 > peer timeout 2, 2 crashes; mesh: 2-3 instances, 3 timer sets, peer timeout 15 s, horizon 3 repeat intervals",
     }
     return "model_checking", cov, e2ecommon.ASSUMPTIONS + [
         "clocks agree (one virtual clock); membership is an input (each instance's view follows crashes and partitions at once); memberlist itself is C19's",
         "alerts reach every instance that is up (Prometheus sends to all Alertmanagers) and are re-sent every minute",
-    ] + peercommon.ASSUMPTIONS
+    ] + peercommon.ASSUMPTIONS + appcommon.ASSUMPTIONS
 
 
 def replay(path, v):
+    if "appsys_" in path:
+        return appcommon.replay(PID, path, v)
     if "peer" in os.path.basename(path):
         return peercommon.replay(PID, path, v)
     raise vlib.Inconclusive("re-run `bin/check C08` with the VERIF_SEED of the evidence")
